@@ -70,3 +70,16 @@ def facts(repo, f, H):
     if not m:
         raise ValueError("block.processTags: min/max update not recognised")
     f["streamMinMaxIgnoresNull"] = m.group(1) is not None
+
+    # F62: Range must not prune a block that has no recorded bounds
+    body = H.strip_comments(H.func_body(repo, "banyand/stream/tag_filter.go", r"func \(tfs \*tagFamilyFilters\) Range\("))
+    f["streamRangeGuardsMissingBounds"] = bool(re.search(r"len\(tf\.min\) == 0 \|\| len\(tf\.max\) == 0", body))
+    body = H.strip_comments(H.func_body(repo, "banyand/internal/sidx/tag_filter_op.go", r"func \(tfo \*tagFilterOp\) Range\("))
+    f["sidxRangeGuardsMissingBounds"] = bool(re.search(r"len\(cache\.min\) == 0 \|\| len\(cache\.max\) == 0", body))
+
+    # F61: query results must not be the shared mutable DummyPostingList
+    src = H.strip_comments(H.read(repo, "pkg/index/inverted/inverted.go"))
+    f["invertedReturnsSharedDummyList"] = "return roaring.DummyPostingList" in src
+    # F63: equality on a numeric field matches the prefix-coded value, not its decimal text
+    body = H.strip_comments(H.func_body(repo, "pkg/index/inverted/inverted.go", r"func \(s \*store\) MatchTerms\("))
+    f["invertedNumericEqByDecimalText"] = "strconv.FormatFloat(field.GetFloat()" in body
